@@ -838,7 +838,88 @@ def rule_json_ctor(ctx: Ctx) -> None:
         raise AnalysisError("json.ctor: no class resolved from name_to_class_map")
 
 
+def rule_export_every_statement(ctx: Ctx) -> None:
+    """export.every-statement: to_openqasm emits one statement per operation of the sequence.  Whether a statement is written may depend on the
+    operation (an empty string for operations without a counterpart), never on what was written before: a test that reads the list of
+    emitted lines (`line != out[-1]`, `line not in out`) drops the second of two identical consecutive gates (H H, S S, CX CX), and the
+    text stays valid openQASM, so every reader silently gets a different circuit."""
+    repo = ctx.repo
+    m = repo.module(BASE)
+    fn = repo.anchor(BASE, "CircuitBase.to_openqasm")
+    ctx.touch(m, fn)
+    joined = [c for c in ast.walk(fn) if isinstance(c, ast.Call) and call_attr(c) == "join" and c.args and isinstance(c.args[0], ast.Name)]
+    if not joined:
+        raise AnalysisError("to_openqasm: the joined statement list was not found")
+    L = joined[-1].args[0].id
+    apps = [c for c in ast.walk(fn) if isinstance(c, ast.Call) and call_attr(c) in ("append", "extend", "insert") and norm(c.func.value) == L]
+    if not apps:
+        raise AnalysisError("to_openqasm: no statement is appended to the joined list")
+    n = 0
+    for c in apps:
+        g = parent(c)
+        tests = []
+        while g is not None and g is not fn:
+            if isinstance(g, (ast.If, ast.While, ast.IfExp)):
+                tests.append(g.test)
+            g = parent(g)
+        hist = [t for t in tests if any(isinstance(x, ast.Name) and x.id == L for x in ast.walk(t))]
+        n += 1
+        if hist:
+            ctx.fail("export.every-statement", m, c,
+                     f"to_openqasm writes `{short(c)}` only when `{short(hist[0], 70)}`, a test on the lines already written: two identical consecutive statements "
+                     f"(the same gate twice on the same register) are exported once", func="CircuitBase.to_openqasm",
+                     construct="to_openqasm: emission depends on the lines already written")
+        else:
+            ctx.ok("export.every-statement", m, c)
+
+
+def rule_lookahead_guard(ctx: Ctx) -> None:
+    """parse.lookahead-guard: from_openqasm recognises multi-statement blocks by looking ahead in the statement list under a guard
+    `i + K < len(cmds)`.  The guard has to admit exactly the offsets the block reads: with K smaller than the largest offset read the parser
+    indexes past the end, with K larger a block that ends at the last statement of the script (a circuit whose last operation is a
+    measure-and-reset) is not recognised and the import fails or yields another operation."""
+    repo = ctx.repo
+    m = repo.module(DAG)
+    fn = repo.anchor(DAG, "CircuitDAG.from_openqasm")
+    ctx.touch(m, fn)
+    n = 0
+    for i in [x for x in ast.walk(fn) if isinstance(x, ast.If)]:
+        t = i.test
+        if not (isinstance(t, ast.Compare) and len(t.ops) == 1 and isinstance(t.ops[0], (ast.Lt, ast.LtE)) and isinstance(t.left, ast.BinOp) and isinstance(t.left.op, ast.Add)
+                and isinstance(t.left.left, ast.Name) and isinstance(t.left.right, ast.Constant) and isinstance(t.comparators[0], ast.Call)
+                and call_name(t.comparators[0]) == "len" and t.comparators[0].args):
+            continue
+        iv, K, X = t.left.left.id, t.left.right.value, norm(t.comparators[0].args[0])
+        if isinstance(t.ops[0], ast.LtE):
+            K -= 1
+        offs = []
+        for sub in [x for st in i.body for x in ast.walk(st) if isinstance(x, ast.Subscript) and norm(x.value) == X]:
+            sl = sub.slice
+            if isinstance(sl, ast.Name) and sl.id == iv:
+                offs.append(0)
+            elif isinstance(sl, ast.BinOp) and isinstance(sl.op, ast.Add) and isinstance(sl.left, ast.Name) and sl.left.id == iv and isinstance(sl.right, ast.Constant):
+                offs.append(sl.right.value)
+        if not offs:
+            continue
+        n += 1
+        mx = max(offs)
+        if K == mx:
+            ctx.ok("parse.lookahead-guard", m, i, what=f"look-ahead of {mx} statements under `{short(t)}`")
+        elif K > mx:
+            ctx.fail("parse.lookahead-guard", m, i,
+                     f"from_openqasm reads `{X}[{iv} + {mx}]` at most under the guard `{short(t)}`, which also demands statement {iv} + {K}: a block that ends at the "
+                     f"last statement of the script is not recognised (a circuit whose last operation is a measure-and-reset imports as a different operation or fails)",
+                     func="CircuitDAG.from_openqasm", construct=f"from_openqasm: guard i + {K} for a look-ahead of {mx}")
+        else:
+            ctx.fail("parse.lookahead-guard", m, i, f"from_openqasm reads `{X}[{iv} + {mx}]` under the guard `{short(t)}`, which only ensures statement {iv} + {K} exists",
+                     func="CircuitDAG.from_openqasm", construct=f"from_openqasm: guard i + {K} for a look-ahead of {mx}")
+    if n == 0:
+        raise AnalysisError("from_openqasm: no look-ahead guard found")
+
+
 def run(ctx: Ctx) -> None:
+    rule_export_every_statement(ctx)
+    rule_lookahead_guard(ctx)
     rule_json_ctor(ctx)
     rule_json_wrapper_complete(ctx)
     rule_wrapper_per_operation(ctx)
@@ -874,6 +955,8 @@ def run(ctx: Ctx) -> None:
 
 
 KNOCKOUTS = [
+    Knockout("export-drops-repeated-statement", BASE, sub_once('            if gate_application != "":\n                openqasm_str.append(gate_application)', '            if gate_application != "" and gate_application != openqasm_str[-1]:\n                openqasm_str.append(gate_application)'), "export.every-statement", "already written"),
+    Knockout("import-lookahead-guard-too-strong", DAG, sub_once("                if i + 3 < len(qasm_commands):", "                if i + 4 < len(qasm_commands):"), "parse.lookahead-guard", "last statement"),
     Knockout("wrapper-info-stored-on-the-class", OPS, sub_once("        self._openqasm_info = oq_lib.single_qubit_wrapper_info(operations)\n", "        type(self)._openqasm_info = oq_lib.single_qubit_wrapper_info(operations)\n"), "state.class-store", "stored on the class"),
     Knockout("defined-gate-test-by-name-length", OQ, sub_once("    if gate_name in gate_name_dict:", "    if len(gate_name) <= 1:"), "table.qasm", "membership test"),
     Knockout("classical-cz-declares-x", OQ, sub_once("    definition = sigma_z_info().definitions[0]\n\n    def usage(q_reg, q_reg_type, c_reg):\n        return (\n            f\"measure {q_reg_type[0]}{q_reg[0]}[0] -> c{c_reg[0]}[0]; \\n\"\n            f\"if (c{c_reg[0]}==1) z", "    definition = sigma_x_info().definitions[0]\n\n    def usage(q_reg, q_reg_type, c_reg):\n        return (\n            f\"measure {q_reg_type[0]}{q_reg[0]}[0] -> c{c_reg[0]}[0]; \\n\"\n            f\"if (c{c_reg[0]}==1) z"), "qasm.declares-used", "ClassicalCZ"),
